@@ -19,6 +19,46 @@ from . import mir
 from .mir import Place, INT_BITS, SIGNED
 
 
+_CRATE_CONSTS = None
+
+
+def crate_consts():
+    """Integer `const NAME: <int type> = <literal>;` items of the crate, read from the current
+    source, keyed by (module path, NAME). Only plain literals are resolved; anything else stays
+    an opaque named constant."""
+    global _CRATE_CONSTS
+    if _CRATE_CONSTS is not None:
+        return _CRATE_CONSTS
+    import os
+    from .dump import REPO
+    out = {}
+    src = os.path.join(REPO, "src")
+    pat = re.compile(r"^\s*(?:pub(?:\([^)]*\))?\s+)?const\s+([A-Z][A-Z0-9_]*)\s*:\s*([iu](?:8|16|32|64|128|size))\s*=\s*"
+                     r"(-?[0-9][0-9_]*)(?:_?[iu](?:8|16|32|64|128|size))?\s*;", re.M)
+    for root, _dirs, files in os.walk(src):
+        for f in files:
+            if not f.endswith(".rs"):
+                continue
+            full = os.path.join(root, f)
+            rel = os.path.relpath(full, src)[:-3].split(os.sep)
+            if rel[-1] in ("mod", "lib"):
+                rel = rel[:-1]
+            mod = "::".join(rel)
+            try:
+                text = open(full).read()
+            except OSError:
+                continue
+            for m in pat.finditer(text):
+                key = (mod, m.group(1))
+                val = (int(m.group(3).replace("_", "")), m.group(2))
+                if key in out and out[key] != val:
+                    out[key] = None      # ambiguous (e.g. nested modules): leave opaque
+                else:
+                    out[key] = val
+    _CRATE_CONSTS = {k: v for k, v in out.items() if v is not None}
+    return _CRATE_CONSTS
+
+
 class Opaque:
     __slots__ = ("label",)
 
@@ -165,6 +205,8 @@ def short_callee(func):
     return "::".join(segs[-2:]) if len(segs) >= 2 else (segs[0] if segs else s)
 
 
+INT_INTRINSIC = re.compile(r"core::num::<impl ([iu](?:8|16|32|64|size))>::"
+                           r"(saturating_add|saturating_sub|saturating_mul|wrapping_add|wrapping_sub|wrapping_mul|min|max)$")
 IDENTITY_CALLS = re.compile(
     r"(as Deref>::deref$|as DerefMut>::deref_mut$|as IntoFuture>::into_future$|Pin::<.*>::new_unchecked$|"
     r"Pin::<.*>::new$|as AsRef<.*>>::as_ref$|as Borrow<.*>>::borrow$|as Clone>::clone$|"
@@ -344,6 +386,21 @@ class Evaluation:
     def to_term(self, v, ty):
         if is_term(v):
             return v
+        if isinstance(v, Phi) and (ty in INT_BITS or ty == "bool"):
+            # a scalar that differs between merged paths: ite over the edge conditions (the last
+            # alternative is the default; the conditions are exhaustive at the merge point)
+            cache = self.__dict__.setdefault("_phi_terms", {})
+            key = (v.label, ty)
+            if key not in cache:
+                cache[key] = None          # cycle guard
+                alts = [(c, self.to_term(x, ty)) for (c, x) in v.alts]
+                if alts and all(t is not None for _, t in alts) and len({t.sort() for _, t in alts}) == 1:
+                    term = alts[-1][1]
+                    for c, t in reversed(alts[:-1]):
+                        term = z3.If(c, t, term)
+                    cache[key] = term
+            if cache[key] is not None:
+                return cache[key]
         if isinstance(v, (Opaque, Phi)):
             return self.sym(v.label, ty)
         return None
@@ -461,6 +518,11 @@ class Evaluation:
         m = re.match(r"^'(.)'$", t)
         if m:
             return z3.BitVecVal(ord(m.group(1)), 32)
+        m = re.match(r"^((?:\w+::)+)([A-Z][A-Z0-9_]*)$", t)
+        if m:
+            cv = crate_consts().get((m.group(1).rstrip(":"), m.group(2)))
+            if cv is not None:
+                return z3.BitVecVal(cv[0], INT_BITS[cv[1]])
         if "Lazy<std::sync::Arc<shared::config::model::Settings>>" in t or "Lazy<Arc<Settings>>" in t:
             return Opaque("CONFIG")
         if t == "()":
@@ -562,6 +624,35 @@ class Evaluation:
                 ty = "bool"
             return v, ty
         return Opaque("raw:" + op[1][:80]), ""
+
+    def int_intrinsic(self, func, args):
+        """core::num::<impl T>::{saturating,wrapping}_{add,sub,mul} / min / max on machine integers"""
+        m = INT_INTRINSIC.search(func)
+        ty, name = m.group(1), m.group(2)
+        x, y = self.to_term(args[0], ty), self.to_term(args[1], ty)
+        if x is None or y is None or not z3.is_bv(x) or not z3.is_bv(y) or x.size() != y.size():
+            return None
+        bits, signed = INT_BITS[ty], ty in SIGNED
+        ext = (lambda t: z3.SignExt(bits, t)) if signed else (lambda t: z3.ZeroExt(bits, t))
+        hi = (1 << (bits - 1)) - 1 if signed else (1 << bits) - 1
+        lo = -(1 << (bits - 1)) if signed else 0
+        le = (lambda a, b: a <= b) if signed else z3.ULE
+        if name in ("min", "max"):
+            c = le(x, y)
+            return z3.If(c, x, y) if name == "min" else z3.If(c, y, x)
+        kind, op = name.split("_")
+        if kind == "wrapping":
+            return {"add": x + y, "sub": x - y, "mul": x * y}[op]
+        wx, wy = ext(x), ext(y)
+        wide = {"add": wx + wy, "sub": wx - wy, "mul": wx * wy}[op]
+        H, L = z3.BitVecVal(hi, 2 * bits), z3.BitVecVal(lo, 2 * bits)
+        if signed:
+            sat = z3.If(wide > H, H, z3.If(wide < L, L, wide))     # signed compare on the 2x-wide value
+        elif op == "sub":
+            return z3.If(z3.ULT(x, y), z3.BitVecVal(0, bits), x - y)
+        else:
+            sat = z3.If(z3.UGT(wide, H), H, wide)
+        return z3.simplify(z3.Extract(bits - 1, 0, sat))
 
     def binop(self, op, a, ta, b, tb, node):
         ty = ta if ta in INT_BITS or ta == "bool" else tb
@@ -722,6 +813,13 @@ class Evaluation:
             if all(same(first, v) for _, v in vals[1:]):
                 out[key] = first
                 continue
+            kty = self.fn.types.get(key, "") if isinstance(key, int) else ""
+            if (kty in INT_BITS or kty == "bool") and all(isinstance(v, Opaque) or is_term(v) for _, v in vals):
+                # scalar local: opaque call results become symbols, so the merge is an ite with the
+                # same condition structure as every other scalar merged at this node
+                lifted = [(c, self.to_term(v, kty)) for c, v in vals]
+                if all(t is not None for _, t in lifted) and len({t.sort() for _, t in lifted}) == 1:
+                    vals = lifted
             out[key] = self.merge_values(vals, f"phi@bb{node[0]}.{node[1]}:{key}")
         return out
 
@@ -771,6 +869,16 @@ class Evaluation:
                 flat.extend((z3.And(c, c2), v2) for c2, v2 in v.alts)
             else:
                 flat.append((c, v))
+        # alternatives carrying the same value are one alternative (disjunction of their conditions)
+        grouped = []
+        for c, v in flat:
+            for g in grouped:
+                if same(g[1], v):
+                    g[0] = z3.Or(g[0], c)
+                    break
+            else:
+                grouped.append([c, v])
+        flat = [(c, v) for c, v in grouped]
         return Phi(label, flat[:16]) if len(flat) <= 16 else Opaque(label)
 
     # ---------------------------------------------------------------- evaluation
@@ -808,6 +916,12 @@ class Evaluation:
                                 self.events.append(Event(node, bb, layer, f"assign({nm})", f"assign({nm})",
                                                          f"assign({nm})@bb{bb}", [val, old], [dty, dty], reach,
                                                          dict(env), st[3], ""))
+                    if len(dest.projs) == 1 and dest.projs[0][0] == "deref" and isinstance(env.get(dest.local), Opaque):
+                        # store through a pointer a call returned (`*next_off = ..`): visible as an event
+                        for nm in self.local_names(dest.local)[:1]:
+                            self.events.append(Event(node, bb, layer, f"store(*{nm})", f"store(*{nm})",
+                                                     f"store(*{nm})@bb{bb}", [val, env.get(dest.local)], ["", ""], reach,
+                                                     dict(env), st[3], ""))
                     self.write_place(env, dest, val)
                 elif st[0] == "setdiscr":
                     if st[1] is not None:
@@ -900,6 +1014,8 @@ class Evaluation:
                         res = Opaque(site)
                 elif re.search(r"as (?:std::ops::)?Try>::branch$", func) and args:
                     res = Opaque(f"try({describe(args[0])})")
+                elif INT_INTRINSIC.search(func) and len(args) == 2 and self.int_intrinsic(func, args) is not None:
+                    res = self.int_intrinsic(func, args)
                 elif re.search(r"Future>::poll$", func) and args:
                     m = re.search(r"\{async fn body of ([^}]*?)\(\)\}", func)
                     if m:
